@@ -223,3 +223,52 @@ func MasterListContent(certs []*Cert) []byte {
 	sort.SliceStable(cs, func(i, j int) bool { return string(DER(cs[i])) < string(DER(cs[j])) })
 	return DER(Seq(Int64(0), Set(cs...)))
 }
+
+// EncodeMultiSigner serialises ONE SignedData that carries the SignerInfos (and embedded certificates) of all
+// the given single-signer objects, in the given order. All of them must be over the same eContent; the first
+// one supplies everything else. wrapTag as in Encode.
+func EncodeMultiSigner(sds []*SignedData, wrapTag byte) []byte {
+	root := sds[0].Tree()
+	find := func(n *Node, label string) *Node {
+		var rec func(n *Node) *Node
+		rec = func(n *Node) *Node {
+			if n.Label == label {
+				return n
+			}
+			for _, k := range n.Kids {
+				if r := rec(k); r != nil {
+					return r
+				}
+			}
+			return nil
+		}
+		return rec(n)
+	}
+	// SignedData ::= SEQUENCE { version, digestAlgorithms, encapContentInfo, certificates [0], signerInfos SET }
+	sdn := root.Kids[1].Kids[0]
+	certs := find(root, "certificates")
+	sis := sdn.Kids[len(sdn.Kids)-1]
+	for _, o := range sds[1:] {
+		t := o.Tree()
+		oc := find(t, "certificates")
+		if certs != nil && oc != nil {
+			certs.Kids = append(certs.Kids, oc.Kids...)
+		}
+		sis.Kids = append(sis.Kids, find(t, "signerInfo"))
+	}
+	clear := func(n *Node) {}
+	_ = clear
+	var strip func(n *Node)
+	strip = func(n *Node) {
+		n.Label = ""
+		n.Sub = nil
+		for _, k := range n.Kids {
+			strip(k)
+		}
+	}
+	strip(root)
+	if wrapTag != 0 {
+		root = &Node{Tag: wrapTag, Kids: []*Node{root}, def: true}
+	}
+	return DER(root)
+}
